@@ -96,22 +96,27 @@ Record lpfile := mkLpFile {
 Definition is_op (s : string) : bool := String.eqb s "<=" || String.eqb s ">=" || String.eqb s "=".
 
 (* linear expression up to the end of the line or a relation: terms and a constant *)
+Definition is_sign (s : string) : bool := String.eqb s "+" || String.eqb s "-".
+
 Fixpoint read_terms (fuel : nat) (sign : Q) (ts : list ltok) (acc : list (string * Q)) (const : Q)
   : option (list (string * Q) * Q * list ltok) :=
   match fuel with
   | O => None
   | S fuel =>
     match ts with
-    | LWord "+" :: rest => read_terms fuel 1%Q rest acc const
-    | LWord "-" :: rest => read_terms fuel (-1)%Q rest acc const
-    | LNum q :: LWord v :: rest =>
-        if is_op v || String.eqb v "+" || String.eqb v "-"
-        then read_terms fuel 1%Q (LWord v :: rest) acc (const + sign * q)%Q     (* a bare number is a constant term *)
-        else read_terms fuel 1%Q rest (acc ++ [(v, (sign * q)%Q)]) const
-    | LNum q :: rest => read_terms fuel 1%Q rest acc (const + sign * q)%Q
-    | LWord v :: rest =>
-        if is_op v then Some (acc, const, ts)
-        else read_terms fuel 1%Q rest (acc ++ [(v, sign)]) const
+    | LWord w :: rest =>
+        if String.eqb w "+" then read_terms fuel 1%Q rest acc const
+        else if String.eqb w "-" then read_terms fuel (-1)%Q rest acc const
+        else if is_op w then Some (acc, const, ts)
+        else read_terms fuel 1%Q rest (acc ++ [(w, sign)]) const
+    | LNum q :: rest =>
+        match rest with
+        | LWord v :: rest' =>
+            if is_op v || is_sign v
+            then read_terms fuel 1%Q rest acc (const + sign * q)%Q      (* a bare number is a constant term *)
+            else read_terms fuel 1%Q rest' (acc ++ [(v, (sign * q)%Q)]) const
+        | _ => read_terms fuel 1%Q rest acc (const + sign * q)%Q
+        end
     | LNL :: _ | [] => Some (acc, const, ts)
     end
   end.
